@@ -394,7 +394,8 @@ pub fn rules(d: &Decl) -> Vec<Violation> {
             rule: "enum-for-element-level-trait",
             stage: 0,
             loci: vec![whole],
-            unspanned_ok: true,
+            // (reported at the item's name: a diagnostic without a span lands on the derive attribute)
+            unspanned_ok: false,
             tolerated: vec![],
             demanded: true,
         });
@@ -461,7 +462,7 @@ pub fn rules(d: &Decl) -> Vec<Violation> {
                             rule: "multi-field-tuple-struct",
                             stage: 0,
                             loci: vec![whole],
-                            unspanned_ok: true,
+                            unspanned_ok: false,
                             tolerated: vec![],
                             demanded: true,
                         });
@@ -1081,6 +1082,9 @@ fn random_field(rng: &mut Rng, name: Option<&str>, messy: bool) -> FieldSpec {
     let mut pool = field_spellings();
     if messy {
         pool.push(occ("bogus", "bogus", true));
+        // a literal where an option belongs is not an option either
+        pool.push(occ("@literal", "\"stray\"", true));
+        pool.push(occ("@literal", "7", true));
         pool.push(occ("word", "word", true));
         pool.push(occ("attributes", "attributes(q)", true));
     }
@@ -1116,6 +1120,10 @@ fn random_decl(rng: &mut Rng) -> Decl {
     let messy_container = rng.chance(1, 5);
     let messy_body = rng.chance(1, 3);
     let mut cpool = container_spellings(tr);
+    if messy_container {
+        cpool.push(occ("@literal", "\"stray\"", true));
+        cpool.push(occ("@literal", "true", true));
+    }
     if !messy_container {
         cpool.retain(|o| known(tr, Level::Container, o.name) && !o.text.contains("bogus") && !o.text.contains("struct_struct") && !o.text.contains("enum_enum"));
     }
@@ -1197,6 +1205,7 @@ fn random_decl(rng: &mut Rng) -> Decl {
                 let mut pool = vpool_clean.clone();
                 if messy_v {
                     pool.push(occ("bogus", "bogus", true));
+                    pool.push(occ("@literal", "\"stray\"", true));
                     pool.push(occ("flatten", "flatten", true));
                 }
                 let vbody = match rng.below(6) {
